@@ -47,6 +47,24 @@ class OracleFailure(Exception):
     pass
 
 
+def token_only_declared(doc):
+    """True iff every occurrence of the entity replacement token in the document lies inside the DOCTYPE's internal subset, i.e. it can reach the parsed
+    result only through entity expansion.  Mutation splices the token into ordinary text as well, and literal text is returned legitimately."""
+    tok = C.TOKEN
+    for enc in ('utf-8', 'utf-16-le', 'utf-16-be'):
+        t = doc.decode(enc, 'ignore')
+        if tok not in t:
+            continue
+        low = t.lower()
+        i = low.find('<!doctype')
+        j = low.find(']>', i) if i != -1 else -1
+        if i == -1 or j == -1:
+            return False
+        if tok in t[:i] or tok in t[j:]:
+            return False
+    return True
+
+
 def one(data):
     if len(data) < 2:
         return
@@ -60,7 +78,7 @@ def one(data):
         raise OracleFailure('%s: external access %r' % (name, ev[:2]))
     status, val = out
     returned = status == 'ok' and val is not None and val != '' and val != b'' and val != {} and val != []
-    if returned and C.contains_token(val):
+    if returned and C.contains_token(val) and (C.contains_token(val, 0, (C.CANARY_TEXT,)) or token_only_declared(doc)):
         raise OracleFailure('%s: entity replacement text in the returned object' % name)
     if declares and returned:
         # only judge when the declaration is real markup (inside the prolog), not text inside CDATA/comments: re-check with a strict reader
